@@ -54,12 +54,32 @@ func volumeStub() *httptest.Server {
 		srv = httptest.NewServer(http.HandlerFunc(func(w http.ResponseWriter, r *http.Request) {
 			atomic.AddInt64(&fetches, 1)
 			fid := strings.TrimPrefix(r.URL.Path, "/")
+			// injected faults (c17_fault_test.go): the fault-aware lookup function sends the reader to
+			// /fault404/<fid> (needle reported missing) or /faulttrunc/<fid> (connection lost mid-body)
+			faultMode := ""
+			for _, p := range []string{stub404, stubTrunc} {
+				if strings.HasPrefix(fid, p) {
+					faultMode, fid = p, strings.TrimPrefix(fid, p)
+				}
+			}
+			if c, ok := fidCtl.Load(fid); ok {
+				defer atomic.AddInt64(&c.(*faultCtl).done, 1)
+			}
 			d, ok := registry.Load(fid)
-			if !ok {
+			if !ok || faultMode == stub404 {
 				http.Error(w, "no such needle "+fid, http.StatusNotFound)
 				return
 			}
 			w.Header().Set("Content-Type", "application/octet-stream")
+			if faultMode == stubTrunc {
+				// announce the whole chunk, deliver half of it, drop the connection
+				// (net/http closes a connection whose handler wrote less than Content-Length)
+				b := d.([]byte)
+				w.Header().Set("Content-Length", fmt.Sprint(len(b)))
+				w.WriteHeader(http.StatusOK)
+				w.Write(b[:len(b)/2])
+				return
+			}
 			http.ServeContent(w, r, "", time.Time{}, bytes.NewReader(d.([]byte)))
 		}))
 	})
@@ -459,6 +479,11 @@ func checkReadAt(t failer, m *model, r io.ReaderAt, a, L, fileSize int, prefill 
 		buf[i] = prefill
 	}
 	n, err := r.ReadAt(buf, int64(a))
+	verifyRead(t, m, buf, n, err, a, L, fileSize, prefill, what)
+}
+
+// verifyRead is the oracle for a ReadAt that must succeed: count, error and every byte.
+func verifyRead(t failer, m *model, buf []byte, n int, err error, a, L, fileSize int, prefill byte, what string) {
 	wantN := 0
 	if a < fileSize {
 		wantN = fileSize - a
